@@ -87,6 +87,26 @@ func BuildMemproxy(race bool) (string, error) {
 	return out, nil
 }
 
+// BuildApp builds another main file of the repository's app directory (for instance
+// memcached_cluster_proxy.go) from the current working tree.
+func BuildApp(file string) (string, error) {
+	buildMu.Lock()
+	defer buildMu.Unlock()
+	name := strings.TrimSuffix(file, ".go")
+	if p, ok := built[name]; ok {
+		return p, nil
+	}
+	out := filepath.Join(Scratch(), name)
+	cmd := exec.Command("go", "build", "-o", out, "app/"+file)
+	cmd.Dir = RepoDir
+	cmd.Env = goEnv()
+	if b, err := cmd.CombinedOutput(); err != nil {
+		return "", fmt.Errorf("building %s: %v\n%s", file, err, b)
+	}
+	built[name] = out
+	return out, nil
+}
+
 // ProxyCfg selects a deployment shape of memproxy.
 type ProxyCfg struct {
 	L2          bool   `json:"l2"`
